@@ -61,12 +61,24 @@ func selectWork(e *Engine, props []string, only string) []*FuncResult {
 	done := map[string]bool{}
 	for _, key := range e.ctOrder {
 		ct := e.contracts[key]
-		if ct.Assumed && len(ct.Callsites) > 0 {
-			// an assumed contract may still carry call-site conditions: those are proved on
-			// the real body (no safety obligations, postconditions stay assumed)
+		hist := false
+		for _, en := range ct.Ensures {
+			if en.Internal && historyRe.MatchString(en.Text) {
+				hist = true
+			}
+		}
+		if ct.Assumed && (len(ct.Callsites) > 0 || hist) {
+			// an assumed contract may still carry call-site conditions and postconditions over the
+			// activation's own call history: those are proved on the real body (no safety
+			// obligations, the other postconditions stay assumed)
 			cc := *ct
 			cc.Assumed = false
 			cc.Ensures = nil
+			for _, en := range ct.Ensures {
+				if en.Internal && historyRe.MatchString(en.Text) {
+					cc.Ensures = append(cc.Ensures, en)
+				}
+			}
 			cc.Requires = append(append([]Clause{}, ct.Requires...), ct.BodyReq...)
 			cc.NoSafety = true
 			cc.Modifies = []string{"*"}
